@@ -25,6 +25,7 @@ package main
 
 import (
 	"fmt"
+	"go/token"
 	"os"
 	"go/types"
 	"sort"
@@ -208,8 +209,11 @@ func stateRules(c *Ctx) {
 	if c.W == nil || len(c.W.SSA) == 0 {
 		return
 	}
+	c.Decided = append(c.Decided, "STATE (shared by every property, over all functions reachable from the anchors): no argument-dependent store into package-level memory outside init / sync.Once / a lock; every value remembered in a package-level map or sync.Map is computed only from argument paths its key covers, and is not file content; no slice of a sync.Pool object is returned while the object is put back; no variable read by a started goroutine's function literal is assigned again by the starter without synchronisation, none is assigned by several such goroutines without a lock; no argument text is used as a fmt format string")
+	c.Undec = append(c.Undec, "data races through memory that is not a package-level variable, a captured local or a pooled object; what a lock actually covers")
 	fam := stateFamily(c)
 	if len(fam) == 0 {
+		c.undecided("STATE", "family examined", token.NoPos, "no function of the property's anchors was found: nothing examined")
 		return
 	}
 	once := onceBodies(c.W)
